@@ -489,8 +489,7 @@ int main(void) {
     srv.network_backend_write = stub_backend_write;
     srv.max_fds = 256;
     srv.ev = fdevent_init("poll", &srv.max_fds, &srv.cur_fds, errh);
-    int sp[2] = { -1, -1 };
-    if (NULL == srv.ev || 0 != socketpair(AF_UNIX, SOCK_STREAM, 0, sp)) { puts("init-failed"); return 1; }
+    if (NULL == srv.ev) { puts("init-failed"); return 1; }
     static gw_proc the_proc;
     static buffer proc_name; proc_name.ptr = "backend"; proc_name.used = 8;
     the_proc.connection_name = &proc_name;
@@ -672,6 +671,7 @@ int main(void) {
             chunk * const c0 = cq->first;
             if (0 == r->reqbody_length) {
                 eof = 1;                                    /* stdin is /dev/null */
+                close(pfd[1]);
             }
             else if (!(r->conf.stream_request_body & (FDEVENT_STREAM_REQUEST|FDEVENT_STREAM_REQUEST_BUFMIN))
                      && c0 && c0 == cq->last && c0->type == FILE_CHUNK && c0->file.is_temp) {
@@ -683,6 +683,7 @@ int main(void) {
                     eof = 1;
                 }
                 chunkqueue_mark_written(cq, chunkqueue_length(cq));
+                close(pfd[1]);
             }
             else {
                 for (int i = 0; i < 100000; ++i) {
@@ -799,6 +800,8 @@ int main(void) {
             drain_err = 0;
             r->state = (0 != r->reqbody_length) ? CON_STATE_READ_POST : CON_STATE_HANDLE_REQUEST;
             con.is_readable = 0;
+            int sp[2] = { -1, -1 };
+            if (0 != socketpair(AF_UNIX, SOCK_STREAM, 0, sp)) { puts("socketpair-failed"); release_hctx(p); goto done; }
             hctx->state = GW_STATE_PREPARE_WRITE;      /*(connection to the backend established)*/
             hctx->fd = sp[0];
             hctx->fdn = fdevent_register(srv.ev, hctx->fd, stub_fdevent_handler, hctx);
@@ -846,7 +849,10 @@ int main(void) {
             if (hctx) {
                 if (hctx->fdn) { fdevent_fdnode_event_del(srv.ev, hctx->fdn); fdevent_unregister(srv.ev, hctx->fdn); }
                 hctx->fdn = NULL; hctx->fd = -1; hctx->proc = NULL;
+                close(sp[0]);
             }
+            else fdevent_poll(srv.ev, 0);   /*(lighttpd closed the backend connection itself: run the scheduled close)*/
+            close(sp[1]);
             release_hctx(p);
             r->http_status = 0;
             goto done;
